@@ -467,7 +467,7 @@ namespace GeographicLib {
      * The returned value \e f lies in (&minus;&infin;, 1).
      **********************************************************************/
     static Math::real SecondEccentricitySqToFlattening(real ep2)
-    { using std::sqrt; return ep2 / (sqrt(1 + ep2) + 1 + ep2); }
+    { using std::sqrt; return ep2 / (sqrt(1 + ep2) + (1 + ep2)); }
 
     /**
      * @param[in] f = (\e a &minus; \e b) / \e a, the flattening.
@@ -492,7 +492,7 @@ namespace GeographicLib {
      **********************************************************************/
     static Math::real ThirdEccentricitySqToFlattening(real epp2) {
       using std::sqrt;
-      return 2 * epp2 / (sqrt((1 - epp2) * (1 + epp2)) + 1 + epp2);
+      return 2 * epp2 / (sqrt((1 - epp2) * (1 + epp2)) + (1 + epp2));
     }
 
     /**
